@@ -4,6 +4,7 @@
 #![allow(deprecated)]
 
 mod env;
+mod inventory;
 mod parse;
 
 fn main() {
@@ -11,6 +12,8 @@ fn main() {
     match mode.as_str() {
         "env" => vpharness::serve(env::handle),
         "parse" => vpharness::serve(parse::handle),
+        "inventory" => vpharness::serve(inventory::handle),
+        "resolve" => inventory::resolve_bruteforce(&std::env::args().skip(2).collect::<Vec<_>>()),
         other => {
             eprintln!("vpmon: unknown mode {other:?}");
             std::process::exit(2);
